@@ -55,7 +55,7 @@ def schema_descriptor(module, schema_name):
     mod = os.path.join(d, "ShowSchema.tla")
     with open(mod, "w") as fp:
         fp.write(
-            "---- MODULE ShowSchema ----\nEXTENDS %s\nASSUME PrintT(<<\"CASE\", ToJson(%s)>>)\nI == cfgs = <<>> /\\ ev = <<>>\nN == FALSE /\\ UNCHANGED <<cfgs, ev>>\n====\n"
+            "---- MODULE ShowSchema ----\nEXTENDS %s\nASSUME PrintT(<<\"CASE\", ToJson(%s)>>)\nI == cfgs = <<>> /\\ ev = <<>> /\\ steps = 0\nN == FALSE /\\ UNCHANGED <<cfgs, ev, steps>>\n====\n"
             % (module, schema_name)
         )
     with open(os.path.join(d, "ShowSchema.cfg"), "w") as fp:
@@ -100,7 +100,7 @@ def run_machine(prop, invs, props, tier, seed, schema="SchemaA", signature_prefi
     adapter = cfgadapter.Adapter(cinco, desc)
     # 2a. complete graph of the first level(s)
     cfgx = os.path.join(d, "export.cfg")
-    write_cfg(cfgx, schema, 2, export=True)
+    write_cfg(cfgx, schema, 1 if tier == "quick" else 2, export=True)
     exp = tlc.run("MC_Config.tla", cfgx, workers=1, keep=("INIT", "EDGE"))
     edges, inits = normalise_graph_states(exp.printed.get("EDGE", []), exp.printed.get("INIT", []))
     g = replay.Graph(inits, edges)
